@@ -214,6 +214,191 @@ example :
 example : handlePairingRequest ⟨.combined, ⟨.noInput, .noOutput⟩, false, true⟩ false 3 0 8
     = .lesc .justWorks (3, 0, 8) := by decide
 
+/-! ### histories: several pairings on one connection
+
+  "… as having no key when no pairing completed": on one link pairing can be repeated.  The
+  reported status has to be the one of the LAST completed pairing since the connection was set
+  up, and no_key as soon as anything else happened to pairing (a further Pairing Request — it is
+  rejected and resets pairing —, a failed attempt, the peer's Pairing Failed, a new connection). -/
+
+/-- operations of a history with well-formed requests -/
+inductive SOp where
+  | pair (cbHas : Bool) (r : Request) (tk : Tk) (u : User)
+  | peerFail
+  | reset
+deriving DecidableEq, Repr
+
+def SOp.toHOp : SOp → HOp
+  | .pair cb r tk u => .pair cb r.io.toNat (oobByte r.oob) r.auth.toNat tk u
+  | .peerFail => .peerFail
+  | .reset => .reset
+
+/-- the model run over a history, from a fresh connection -/
+def runS (c : Config) (h : List SOp) : Conn := runH c (h.map SOp.toHOp)
+
+/-- specification side, computed from the exchanges only (never from the connection data): the
+    pairing phase and the scenario of the completed pairing nothing has happened to since -/
+def specStep (c : Config) (g : Phase × Option Scenario) : SOp → Phase × Option Scenario
+  | .pair cb r tk u =>
+      if g.1 ≠ .idle then (.idle, none)
+      else
+        let s : Scenario := ⟨c, cb, r, tk, u⟩
+        if s.run.rest.done then (.completed, some s)
+        else if s.run.rest.fail = .dhkeyWait then (.pending, none) else (.idle, none)
+  | .peerFail => (.idle, none)
+  | .reset => (.idle, none)
+
+def lastCompleted (c : Config) (h : List SOp) : Option Scenario :=
+  (h.foldl (specStep c) (.idle, none)).2
+
+/-- the LESC-only manager never takes the legacy half -/
+theorem lesc_mgr_no_legacy (c : Config) (cbHas : Bool) (io oobFlag authReq : Nat) (alg : LegacyAlg)
+    (rsp : Nat × Nat × Nat) (h : handlePairingRequest c cbHas io oobFlag authReq = .legacy alg rsp) :
+    c.mgr ≠ .lesc := by
+  intro hm
+  simp only [handlePairingRequest, hm, lescHandlePairingRequest] at h
+  (repeat' split at h) <;> simp at h
+
+/-- a completing attempt leaves the status of exactly that attempt in the connection data,
+    whatever the connection data held before -/
+theorem connAfter_reported (c : Config) (k : Conn) (cbHas : Bool) (io oobFlag authReq : Nat) (tk : Tk) (u : User)
+    (hd : (pair c cbHas io oobFlag authReq tk u).rest.done = true) :
+    (connAfter k (pair c cbHas io oobFlag authReq tk u)).phase = .completed ∧
+    (connAfter k (pair c cbHas io oobFlag authReq tk u)).reported c.mgr =
+      (pair c cbHas io oobFlag authReq tk u).status := by
+  unfold pair at hd ⊢
+  cases hsel : handlePairingRequest c cbHas io oobFlag authReq with
+  | rej code => simp [hsel] at hd
+  | legacy alg rsp =>
+      have hm := lesc_mgr_no_legacy _ _ _ _ _ _ _ hsel
+      simp only [hsel] at hd ⊢
+      simp only [connAfter, phaseAfter, hd, Conn.reported, legacyStatus]
+      cases hmgr : c.mgr <;> simp_all
+  | lesc alg rsp =>
+      have hm := legacy_mgr_no_lesc _ _ _ _ _ _ _ hsel
+      simp only [hsel] at hd ⊢
+      simp only [connAfter, phaseAfter, hd, Conn.reported, lescStatus]
+      cases hmgr : c.mgr <;> simp_all
+
+/-- an attempt that does not complete leaves pairing not completed -/
+theorem connAfter_not_done (c : Config) (k : Conn) (cbHas : Bool) (io oobFlag authReq : Nat) (tk : Tk) (u : User)
+    (hk : k.phase = .idle) (hd : (pair c cbHas io oobFlag authReq tk u).rest.done = false) :
+    (connAfter k (pair c cbHas io oobFlag authReq tk u)).phase =
+      (if (pair c cbHas io oobFlag authReq tk u).rest.fail = .dhkeyWait then .pending else .idle) := by
+  unfold pair at hd ⊢
+  cases hsel : handlePairingRequest c cbHas io oobFlag authReq with
+  | rej code => simp [connAfter, hk]
+  | legacy alg rsp =>
+      simp only [hsel] at hd ⊢
+      simp [connAfter, phaseAfter, hd]
+  | lesc alg rsp =>
+      simp only [hsel] at hd ⊢
+      simp [connAfter, phaseAfter, hd]
+
+/-- the relation between the connection data and the specification side -/
+def HInv (c : Config) (k : Conn) (g : Phase × Option Scenario) : Prop :=
+  k.phase = g.1 ∧
+  match g.2 with
+  | none => k.phase ≠ .completed
+  | some s => k.phase = .completed ∧ s.c = c ∧ s.run.rest.done = true ∧ k.reported c.mgr = s.run.status
+
+theorem hinv_step (c : Config) (k : Conn) (g : Phase × Option Scenario) (op : SOp) (h : HInv c k g) :
+    HInv c (stepH c k op.toHOp) (specStep c g op) := by
+  obtain ⟨hp, _⟩ := h
+  cases op with
+  | peerFail => exact ⟨rfl, by simp [SOp.toHOp, stepH, specStep]⟩
+  | reset => exact ⟨rfl, by simp [SOp.toHOp, stepH, specStep, Conn.fresh]⟩
+  | pair cb r tk u =>
+    simp only [SOp.toHOp, stepH, stepPair, specStep]
+    by_cases hidle : k.phase = .idle
+    · have hg : g.1 = .idle := by rw [← hp]; exact hidle
+      simp only [hidle, hg, ne_eq, not_true_eq_false, if_false]
+      have hrun : (⟨c, cb, r, tk, u⟩ : Scenario).run = pair c cb r.io.toNat (oobByte r.oob) r.auth.toNat tk u := rfl
+      cases hd : (pair c cb r.io.toNat (oobByte r.oob) r.auth.toNat tk u).rest.done with
+      | true =>
+        obtain ⟨h1, h2⟩ := connAfter_reported c k cb r.io.toNat (oobByte r.oob) r.auth.toNat tk u hd
+        simp only [hrun, hd, if_true]
+        exact ⟨h1, h1, rfl, by rw [hrun]; exact hd, by rw [hrun]; exact h2⟩
+      | false =>
+        have h1 := connAfter_not_done c k cb r.io.toNat (oobByte r.oob) r.auth.toNat tk u hidle hd
+        simp only [hrun, hd, Bool.false_eq_true, if_false]
+        by_cases hw : (pair c cb r.io.toNat (oobByte r.oob) r.auth.toNat tk u).rest.fail = .dhkeyWait
+        · simp only [hw, if_true] at h1 ⊢
+          exact ⟨h1, by rw [h1]; simp⟩
+        · simp only [hw, if_false] at h1 ⊢
+          exact ⟨h1, by rw [h1]; simp⟩
+    · have hg : g.1 ≠ .idle := by rw [← hp]; exact hidle
+      simp only [ne_eq, hidle, not_false_eq_true, if_true, hg]
+      exact ⟨rfl, by simp⟩
+
+theorem hinv_run (c : Config) (h : List SOp) :
+    ∀ (k : Conn) (g : Phase × Option Scenario), HInv c k g →
+      HInv c ((h.map SOp.toHOp).foldl (stepH c) k) (h.foldl (specStep c) g) := by
+  induction h with
+  | nil => intro k g hi; exact hi
+  | cons op ops ih =>
+    intro k g hi
+    simp only [List.map_cons, List.foldl_cons]
+    exact ih _ _ (hinv_step c k g op hi)
+
+/-- **status_reflects_last_pairing** (C35 over histories): after every history of pairing attempts,
+    peer Pairing Failed PDUs and reconnects on one connection, the reported status is no_key
+    unless the last thing that happened to pairing is a completed pairing `s`, and then it is
+    the status of exactly that pairing — so the three clauses of the property hold for it against
+    what *that* exchange authenticated, exactly outside the named class of
+    `authenticated_iff_authenticated_exchange_iff`; nothing an earlier pairing on the same
+    connection left behind is reported. -/
+theorem status_reflects_last_pairing (c : Config) (hc : c.compiles = true) (h : List SOp) :
+    match lastCompleted c h with
+    | none => (runS c h).reported c.mgr = .noKey
+    | some s =>
+        s.c = c ∧ s.run.rest.done = true ∧ (runS c h).reported c.mgr = s.run.status ∧
+        statusCorrect s.tk s.user { s.run with status := (runS c h).reported c.mgr } = !excluded s := by
+  have hi := hinv_run c h Conn.fresh (.idle, none) ⟨rfl, by simp [Conn.fresh]⟩
+  unfold lastCompleted runS runH
+  obtain ⟨_, h2⟩ := hi
+  generalize (h.map SOp.toHOp).foldl (stepH c) Conn.fresh = k at h2 ⊢
+  generalize h.foldl (specStep c) (.idle, none) = g at h2 ⊢
+  cases hg : g.2 with
+  | none =>
+    rw [hg] at h2
+    simp only [Conn.reported]
+    simp [h2]
+  | some s =>
+    rw [hg] at h2
+    obtain ⟨_, hsc, hd, hr⟩ := h2
+    refine ⟨hsc, hd, hr, ?_⟩
+    rw [hr]
+    exact authenticated_iff_authenticated_exchange_iff s (by rw [hsc]; exact hc)
+
+/-- non-vacuity, and the history that was missed (`_miss`: a sticky `pairing_status_`): combined
+    manager with display + yes/no; legacy pass key entry (authenticated_key), a further Pairing
+    Request (rejected, pairing reset: no_key), Just Works: the status is the one of the Just Works
+    pairing -/
+def repairingHistory : List SOp :=
+  [.pair false ⟨.keyboardDisplay, false, ⟨false, false, false, false⟩⟩ .passkey .silent,
+   .pair false ⟨.noInputNoOutput, false, ⟨false, false, false, false⟩⟩ .zero .silent,
+   .pair false ⟨.noInputNoOutput, false, ⟨false, false, false, false⟩⟩ .zero .silent]
+
+def repairingCfg : Config := ⟨.combined, ⟨.yesNo, .numeric⟩, false, true⟩
+
+example :
+    (runS repairingCfg (repairingHistory.take 1)).reported .combined = .authenticatedKey
+    ∧ (runS repairingCfg (repairingHistory.take 2)).reported .combined = .noKey
+    ∧ (runS repairingCfg repairingHistory).reported .combined = .unauthenticatedKey
+    ∧ (lastCompleted repairingCfg repairingHistory).map (fun s => (s.tk, s.run.status))
+        = some (.zero, .unauthenticatedKey)
+    ∧ (lastCompleted repairingCfg (repairingHistory.take 2)) = none := by decide
+
+/-- the same with a confirmed LESC numeric comparison first, the peer's Pairing Failed in
+    between, and an LESC Just Works pairing last; and the reverse order -/
+example :
+    let nc : SOp := .pair false ⟨.displayYesNo, false, ⟨false, false, true, false⟩⟩ .zero .yesAfterCheck
+    let jw : SOp := .pair false ⟨.noInputNoOutput, false, ⟨false, false, true, false⟩⟩ .zero .silent
+    (runS repairingCfg [nc, .peerFail, jw]).reported .combined = .unauthenticatedKey
+    ∧ (runS repairingCfg [jw, .peerFail, nc]).reported .combined = .authenticatedKey
+    ∧ (runS repairingCfg [nc, .reset]).reported .combined = .noKey := by decide
+
 /-! ### non-vacuity and witnesses -/
 
 /-- the partial theorem covers real pairings: combined manager with display + yes/no, remote
